@@ -1,4 +1,8 @@
 import ClvmModel.Proto.Varint
+import ClvmModel.Proto.Alloc
+import ClvmModel.Proto.Classic
+import ClvmModel.Proto.TreeHash
+import ClvmModel.Proto.Crypto
 open Clvm Clvm.Proto
 
 /-- one request line `<KIND> <id> <args…>` ↦ one reply line `<id> <reply>` -/
@@ -8,6 +12,19 @@ def handleLine (line : String) : String :=
     let r : Option String :=
       match kind with
       | "VARINT" => handleVarint args
+      | "CRYPTO" => handleCrypto args
+      | "HASH" => handleHash args
+      | "THASH" => handleTHash args
+      | "THASHDAG" => handleTHashDag args
+      | "ALLOC" => handleAlloc args
+      | "SER" => (match args with
+          | "classic" :: _ => handleSerClassic args
+          | _ => none)
+      | "DE" => (match args with
+          | "classic" :: _ | "lent" :: _ | "canon" :: _ => handleDeClassic args
+          | _ => none)
+      | "LEN" => handleLen args
+      | "PFX" => handlePfx args
       | _ => none
     match r with
     | some s => id ++ " " ++ s
